@@ -41,6 +41,7 @@ type SQuant struct {
 }
 type SCond struct{ C, A, B SExpr }
 type SLambda struct {
+	Sort string // index sort name (as for quantified variables): "int" by default, "tp", "string", ...
 	Var  string
 	Body SExpr
 }
@@ -183,9 +184,13 @@ func (p *sparser) expr() SExpr {
 			p.fail("expected lambda variable")
 		}
 		name := p.next().v
+		sort := "int"
+		if p.cur().k == "id" {
+			sort = p.next().v
+		}
 		p.expectOp("::")
 		body := p.expr()
-		return &SLambda{Var: name, Body: body}
+		return &SLambda{Var: name, Sort: sort, Body: body}
 	}
 	if p.isID("forall") || p.isID("exists") {
 		fa := p.next().v == "forall"
